@@ -772,3 +772,8 @@ SUBCHECKS = [
         note='mnemonic_to_wallet_key twice + reference derivation (3 x PBKDF2 100000 rounds per case): 8 quick / 56 thorough; the second call takes the words as tuple / iterator / generator; '
              'plus fixed words whose joined phrase is 127 / 128 / 129 bytes (thorough: 14 boundary lengths)'),
 ]
+
+# the same generated cases, several at a time, checked by threads that run at the same time (core.run_overlapping): per-call state
+# kept in a place two calls share shows only there
+SUBCHECKS.append(__import__('harness.core', fromlist=['overlapped']).overlapped(next(s for s in SUBCHECKS if s.name == 'channel-random'), k=3, n=(30, 600), name='two-threads-channel'))
+SUBCHECKS.append(__import__('harness.core', fromlist=['overlapped']).overlapped(next(s for s in SUBCHECKS if s.name == 'sign-random'), k=3, n=(40, 1000), name='two-threads-sign'))
